@@ -421,8 +421,23 @@ def summarise(func, limit=6000, to_raise=True, lists=False):
                                 isnone_claim = (c.endswith(' is None') and truth)
                                 if isnone_claim:
                                     ps.infeasible = True
-                    # a comparison of two literals is decided
+                    # membership in an empty display is decided
                     skip_fact = False
+                    if isinstance(core, ast.Compare) and len(core.ops) == 1 and \
+                            isinstance(core.ops[0], (ast.In, ast.NotIn)) and \
+                            isinstance(core.comparators[0], (ast.Tuple, ast.Set)) and \
+                            not core.comparators[0].elts:
+                        val_ = isinstance(core.ops[0], ast.NotIn)
+                        nots = 0
+                        x_ = t
+                        while isinstance(x_, ast.UnaryOp) and isinstance(x_.op, ast.Not):
+                            x_ = x_.operand
+                            nots += 1
+                        tval = val_ if nots % 2 == 0 else not val_
+                        if tval != (lab == 'T'):
+                            ps.infeasible = True
+                        continue
+                    # a comparison of two literals is decided
                     if isinstance(core, ast.Compare) and len(core.ops) == 1 and \
                             isinstance(core.left, ast.Constant) and \
                             isinstance(core.comparators[0], ast.Constant) and \
